@@ -105,7 +105,7 @@ class Result:
         same = sum(1 for v in self.violations if v["key"] == key)
         self.counters["violations_seen"] += 1
         if same < 3:
-            self.violations.append({"key": key, "message": message, "case": repr(case)})
+            self.violations.append({"key": key, "message": message, "case": repr(case), "ambient": dict(AMBIENT)})
 
     def merge(self, other: "Result"):
         self.evaluations += other.evaluations
@@ -158,6 +158,37 @@ def load_known_findings():
     return out
 
 
+# -- ambient configuration -------------------------------------------------------
+# What an application may have switched on process-wide without touching the library: DEBUG logging for 'pymemcache' with a
+# handler that really formats every record (so every logging argument is evaluated).  Odd-numbered shards run under it; a
+# violation remembers the ambient state it was seen under and --replay restores it.
+AMBIENT = {"debug_log": False}
+_LOG_COUNT = [0]
+
+
+class _FormattingHandler:
+    level = 0
+
+    def handle(self, record):
+        try:
+            record.getMessage()
+        except Exception:
+            pass
+        _LOG_COUNT[0] += 1
+        return True
+
+
+def set_ambient(debug_log=False):
+    import logging
+    lg = logging.getLogger("pymemcache")
+    AMBIENT["debug_log"] = bool(debug_log)
+    if debug_log:
+        logging.raiseExceptions = False
+        lg.setLevel(logging.DEBUG)
+        lg.handlers = [_FormattingHandler()]
+        lg.propagate = False
+
+
 # -- running -------------------------------------------------------------------
 
 def _shard_child(modname, tier, seed, idx, n, outpath):
@@ -167,8 +198,10 @@ def _shard_child(modname, tier, seed, idx, n, outpath):
     import faulthandler
     faulthandler.enable()
     mod = importlib.import_module(modname)
+    set_ambient(debug_log=(idx % 2 == 1))
     try:
         res = mod.shard(tier, seed, idx, n)
+        res.counters["log_records_formatted_under_ambient_DEBUG"] += _LOG_COUNT[0]
     except BaseException as e:
         # keep what the shard's monitors had already recorded (violations seen before the crash are real)
         res = getattr(Result, "last_created", None) or Result()
@@ -303,7 +336,7 @@ def finish(mod, total: Result, tier, seed, wall, write_evidence=True):
             path = os.path.join(rdir, "%s.json" % safe)
             with open(path, "w", encoding="utf8") as f:
                 json.dump({"property": prop, "key": v["key"], "message": v["message"],
-                           "case": v["case"], "seed": seed, "tier": tier}, f, indent=1)
+                           "case": v["case"], "seed": seed, "tier": tier, "ambient": v.get("ambient", {})}, f, indent=1)
             lines.append("VIOLATION property=%s replay=%s" % (prop, path))
             lines.append("  key=%s %s" % (v["key"], v["message"][:600]))
         if len(seen) > shown:
@@ -376,6 +409,7 @@ def run_replay(path):
         rec = json.load(f)
     prop = rec["property"]
     mod = importlib.import_module("checks.%s" % prop.lower())
+    set_ambient(**(rec.get("ambient") or {}))
     case = ast.literal_eval(rec["case"])
     t0 = time.time()
     if isinstance(case, (tuple, list)) and case and case[0] == "shard-crash":
